@@ -194,6 +194,26 @@ Result exec(const Plan& pl) {
     bool detected = false;
     bool multi = false;
     int calls = 0;
+    // history before the scenario: the detector has already processed another (non-silent) stream and was reset()
+    if ((uint32_t(op.iarg(8)) % 7u) < 2u) {
+        Rng hr(mix(callseed, 0x4157));
+        const int pre = int(hr.range(1, 3));
+        const double lvl = amp * hr.logu(0.3, 3.0);
+        try {
+            for (int k = 0; k < pre; ++k) {
+                arr_cmplx junk(block);
+                for (int i = 0; i < block; ++i) {
+                    junk[i] = cmplx_t{lvl * hr.normal(), lvl * hr.normal()};
+                }
+                (void)det.process(junk);
+            }
+            det.reset();
+        } catch (const std::exception& e) {
+            res.fail("C18:exception", std::string("PreambleDetector history / reset threw: ") + e.what());
+            return res;
+        }
+        res.inc("fault.earlier_stream_then_reset");
+    }
     const bool reject_fault = (uint32_t(op.iarg(8)) % 5u) == 0u;   // a call with an unsupported length (rejected by exception) somewhere in the history
     const int64_t reject_at = reject_fault ? int64_t(r.below(uint64_t(total))) * block : -1;
     int spurious_checked = 0;
